@@ -6,12 +6,16 @@ EP = APP + "/src/plugin/input/default/edge_rtree/edge_rtree_input_plugin.rs"
 wit = KaniUnit("c16_wit", APP, modules=[dict(file=EP, src="c16_edge_tolerance_wit.rs")], harnesses=[])
 wit.native_witnesses = ["c16_wit_edge_tolerance_is_a_distance_on_the_ground", "c16_wit_tree_measure_and_tolerance_use_the_same_location"]
 em = VerusUnit("c16_edge_match", "c16_edge_match", rlimit=30, paired_kani=(wit, []))
-UNITS = [em, wit]
-EXPLANATION = ("ONE kernel of C16, NOT the agreement with an exhaustive scan. Decided (Verus, verbatim `search` and `within_tolerance` of the edge map-matching plugin, any tree, coordinate, tolerance and unit, "
+pr = VerusUnit("c16_process", "c16_process", rlimit=30, paired_kani=(wit, []))
+UNITS = [em, pr, wit]
+EXPLANATION = ("The plugins' own logic, NOT the agreement of the r-tree with an exhaustive scan. Decided (Verus, verbatim `process` of BOTH map-matching plugins and VertexRTree::nearest_vertex, callees through their contracts): "
+               "vertex plugin -- on success the origin (and, when the query has a destination coordinate, the destination) vertex written into the query is the tree's nearest vertex to THAT coordinate, it passed the tolerance check against THAT coordinate, "
+               "and every other field of the query is as it was; a nearest vertex that fails the tolerance check, or an empty tree, is an error and never a match; edge plugin -- the origin / destination edge written into the query is what `search` returned for "
+               "that coordinate with the QUERY's road classes and vehicle parameters and the plugin's tree, tolerance and restriction tables, every other field is as it was, and 'no admissible candidate within the tolerance' is an error, never a match. Decided (Verus, verbatim `search` and `within_tolerance` of the edge map-matching plugin, any tree, coordinate, tolerance and unit, "
                "road-class filter and vehicle parameters): a match is a candidate of the r-tree that is admissible (road class, vehicle restrictions) AND within the tolerance measured on the ground (great-circle distance to the "
                "record's location, converted to the tolerance's unit with the real table), it is the FIRST admissible candidate in the order the tree yields, and every candidate before it is within the tolerance too; no match "
                "means the candidates were exhausted without an admissible one or the first candidate beyond the tolerance came before any admissible one; without a tolerance nothing is rejected for distance; EdgeRtreeRecord::distance_2 (verbatim, f32 arithmetic as reals): the measure by which the tree orders its records is the squared coordinate distance from the query point to the record's LOCATION, the same location (the centroid of its geometry) that the tolerance is measured to; the vertex plugin's validate_tolerance (verbatim) accepts the matched vertex only if its great-circle distance, in the tolerance's unit, is below the tolerance. "
                "The pinned code compared the tree's squared difference of DEGREES with the tolerance in METRES (found by the witness, fixed in /repo bdc3795)")
 NOT_DECIDED = ("that the r-tree yields its records nearest-first and agrees with an exhaustive scan (rstar, a dependency); that an order by squared degrees agrees with an order by distance on the ground; the great-circle formula itself "
-               "(transcendental functions: uninterpreted metres); the vertex plugin's nearest_vertex (rstar); that the other fields of the query are left unchanged (serde_json)")
+               "(transcendental functions: uninterpreted metres); rstar's nearest_neighbor itself; reading the coordinates / road classes / vehicle parameters out of the query and writing one key into it (serde_json: deterministic reads and a one-key write, assumed)")
 ASSUMPTIONS = ["A-REAL (f64 and, for distance_2, f32)", "the r-tree iterator as an opaque sequence of records (R3-dyn)", "road-class / vehicle-restriction admissibility as uninterpreted verdicts per edge id (VehicleRestriction::valid itself: unit c04_frontier)"]
